@@ -120,6 +120,7 @@ fn run_case(engine: &str, f: &[&str]) -> CaseResult {
         ("compile", ["perm", _fam, opts, files, orders, exp]) => perm::run_perm(opts, files, orders, exp),
         ("compile", ["compile", _fam, proj, opts, files, exp]) => compile::run_compile(proj, opts, files, exp),
         ("slicelex", ["lex", _fam, text, exp]) => slicelex::run_lex(text, exp),
+        ("slicelex", ["lexloc", _fam, text, exp]) => slicelex::run_lexloc(text, exp),
         ("options", ["spec", _fam, hx, exp]) => options::run_spec(hx, exp),
         ("options", ["specd", _fam, hx, exp]) => options::run_spec_detached(hx, exp),
         ("options", ["multi", _fam, hxs, exp]) => options::run_multi(hxs, exp),
